@@ -202,6 +202,12 @@ impl PartitionStorage for FilePartitionStorage {
             }
 
             partition.current_offset = last_segment.current_offset;
+            // An empty last segment that starts above 0 is the replacement created after
+            // all earlier segments were removed: the last assigned offset is the one before it.
+            if last_segment.size_bytes == 0 && last_segment.start_offset > 0 {
+                partition.current_offset = last_segment.start_offset - 1;
+                partition.should_increment_offset = true;
+            }
         }
 
         partition
